@@ -10,7 +10,8 @@ generated (subject to the delimitation constraints of valid()). Classes are assi
 (CFORMS: one line, multi-line, Office conditional comment, downlevel-revealed pair, comment holding the element's own
 tags); non-plain spellings are generated for every sequence of length <= 1 and every longer sequence (<= Lc) with a
 comment symbol. Formats: html (read_html), mhtml x {7bit, quoted-printable, base64}, epub chapter, epubseq (three
-chapters, the first ends inside an unterminated element), msg-style body (_html_to_text).
+chapters, the first ends inside an unterminated element), msg-style body (_html_to_text on a full page; "msgfrag": a body
+fragment without <html>/<body> shell whose tags carry attributes, through the reader's own is-this-HTML decision).
 
 Family "cm" (comment forms, {"fam": "cm", "lay", "frame", "k": [slot, slot]}): V0 K1 V1 K2 V2 - two removable
 constructs with visible text before, between and after. A slot is a comment `<!--c-->`, a markup declaration `<!c>`
@@ -58,7 +59,7 @@ CONTEXTS = ["body", "div", "td", "li", "sib"]     # sib: the removed element fol
 SIGMA = ["<p>", "</p>", "<span>", "</span>", "<td>", "</td>", "<img>", "<img/>", "<br>", "<br/>",
          "<n1>", "</n1>", "<n2>", "</n2>", "<r>", "</r>", "T", "C", "D"]
 SIGMA_EXTRA_VOID = ["<input>", "<param>", "<source>", "<hr>", "<wbr>"]
-FORMATS_ALL = ["html", "msgbody", "epub", "epubseq", "mhtml-qp", "mhtml-7bit", "mhtml-b64", "mhtml-tree"]
+FORMATS_ALL = ["html", "msgbody", "msgfrag", "epub", "epubseq", "mhtml-qp", "mhtml-7bit", "mhtml-b64", "mhtml-tree"]
 # spellings of a comment (family "seq", key "cform")
 CFORMS = ["plain", "ml", "cond", "rev", "tag"]
 # family "cm": comment-content alphabet
@@ -214,6 +215,10 @@ def extract_page(fmt, page, container=None):
     if fmt == "msgbody":
         from sharepoint2text.parsing.extractors.mail.msg_email_extractor import _html_to_text
         return _html_to_text(page)
+    if fmt == "msgfrag":
+        # the reader's own decision whether the stored body is HTML, then its converter (as read_msg_format_mail does)
+        from sharepoint2text.parsing.extractors.mail.msg_email_extractor import _html_to_text, _looks_like_html
+        return _html_to_text(page) if _looks_like_html(page) else page
     if fmt == "mhtml-tree":
         from sharepoint2text.parsing.extractors.mhtml_extractor import read_mhtml
         res = list(read_mhtml(io.BytesIO(W.mhtml_tree(page, **container)), "p.mhtml"))
@@ -391,6 +396,10 @@ def render_case(fmt, case, tk):
     if fam == "wrap":
         return render_wrap(case, tk)
     body, visible, hidden = render_body(case, tk, xhtml=(fmt == "epub"))
+    if fmt == "msgfrag":
+        # an HTML mail body as Outlook stores it when it is a fragment: no <html>/<body> shell, tags carrying attributes
+        # (every bare start tag gets an attribute: mail composers write class / style attributes on everything)
+        return '<div class="m" dir="ltr">%s</div>' % re.sub(r"<([A-Za-z][A-Za-z0-9]*)>", r'<\1 data-v="1">', body), visible, hidden
     return (htmlfam.xhtml_page(body, "t") if fmt == "epub" else htmlfam.html_page(body)), visible, hidden
 
 
@@ -406,7 +415,7 @@ def evaluate(fmt, case, seed=0):
     found = find_tokens(text)
     fails = []
     leaked = [t for t in found if t in hidden]
-    if fmt == "msgbody" and "<body>" in text:
+    if (fmt == "msgbody" and "<body>" in text) or (fmt == "msgfrag" and '<div class="m"' in text):
         # the converter gave up and handed the markup back: every removed construct (comments included) is in the text.
         # One clause for this, whatever happens to be inside the constructs.
         fails.append(("unparsed", f"the HTML body comes back as raw markup, removed constructs included: text {text!r}"))
@@ -602,8 +611,8 @@ def cases_for(tier, fmt):
     elif fmt == "epub":
         L = {r: (3 if quick else 4) for r in REMOVABLE}
         ctxs = CONTEXTS
-    elif fmt == "msgbody":
-        L = {r: (2 if quick else 3) for r in REMOVABLE}
+    elif fmt in ("msgbody", "msgfrag"):
+        L = {r: ((2 if quick else 3) if fmt == "msgbody" else (1 if quick else 2)) for r in REMOVABLE}
         ctxs = ["body", "td"]
     else:
         L = {r: (2 if quick else 3) for r in REMOVABLE}
@@ -665,7 +674,7 @@ def run(ctx):
     fmts = FORMATS_ALL
     args = []
     for fmt in fmts:
-        n = 32 if fmt in ("html", "epub") else (16 if fmt in ("mhtml-tree", "msgbody", "mhtml-qp") else 8)
+        n = 32 if fmt in ("html", "epub") else (16 if fmt in ("mhtml-tree", "msgbody", "mhtml-qp") else 8)  # msgfrag: 8
         if not ctx.quick and fmt == "html":
             n = 128
         args += [(ctx.tier, fmt, k, n, ctx.seed) for k in range(n)]
